@@ -7,7 +7,7 @@ from fractions import Fraction as Fr
 from .. import common
 from ..runner import Corr, Failure
 
-LEAN_MODULES = ['SvgVerif.Props.C16']
+LEAN_MODULES = ['SvgVerif.Props.C16', 'SvgVerif.Props.C16Heap']
 ASSUMPTIONS = [
     'segment lengths are uninterpreted in the theorem (law-free); the correspondence instantiates them with exact |end-start| on 1-D stub segments',
     'aliasing of one segment object inside two paths (or twice in one path) is not modelled',
@@ -208,7 +208,95 @@ def correspond(ctx):
         P._quad_available, P.segment_length = saved
     model = common.driver(lines)
     c2.compare(lines, [m.strip() for m in model], impl)
-    return [c, c2]
+
+    # ---- stream 3: Arc length cache (key = (hash(self), error, min_depth)) with an identity integrator -------------------
+    c3 = Corr('arc-length-cache')
+    r = ctx.rng('corr-arc')
+    lines, impl = [], []
+    saved = (P._quad_available, P.segment_length)
+    arcs = [(0j, 3 + 2j, 0, False, True, 2 + 1j), (0.5j, 3 + 2j, 0, False, True, 2 + 1j), (0j, 3 + 2j, 30, False, True, 2 + 1j), (0j, 3 + 2j, 0, True, True, 2 + 1j)]
+    assert len(set(hash(P.Arc(*a)) for a in arcs)) == len(arcs)      # the model's hash is injective on these
+    try:
+        P._quad_available = False
+        cur = {}
+
+        def fake_segment_length2(curve, start, end, start_point, end_point, error, min_depth, depth):
+            return (cur['f'], error, min_depth)
+        P.segment_length = fake_segment_length2
+        for it in range(ctx.n(150, 1500)):
+            seg = P.Arc(*arcs[0])
+            ops, outs = [], []
+            for _ in range(r.randint(1, 8)):
+                b = r.choice([0, 0, 0, 1, 2, 3])
+                k = r.choice([3, 6, 12, 12, 14])
+                d = r.choice([0, 5, 5, 7])
+                seg.start, seg.radius, seg.rotation, seg.large_arc, seg.sweep, seg.end = arcs[b]
+                seg._parameterize()
+                cur['f'] = b
+                e = Fr(1, 10 ** k)
+                ops.append('req %d %s %d' % (b, _fr(e), d))
+                v = seg.length(error=e, min_depth=d)
+                outs.append('%d:%s:%d' % (v[0], _fr(v[1]), v[2]))
+                c3.count('accuracy 1e-%d depth %d' % (k, d))
+            lines.append('arccache ' + ' ; '.join(ops))
+            impl.append(' ; '.join(outs))
+    finally:
+        P._quad_available, P.segment_length = saved
+    model = common.driver(lines)
+    c3.compare(lines, [m.strip() for m in model], impl)
+    # ---- stream 4: a heap of CubicBezier objects sharing length records (reversed(), copy.copy) ------------------------------
+    import copy as _copy
+    c4 = Corr('segment-heap')
+    r = ctx.rng('corr-heap')
+    lines, impl = [], []
+    saved = (P._quad_available, P.segment_length)
+    base = [(0j, 0j, 0j, 0j + 0), (0j, 1 + 1j, 2 - 1j, 3 + 0j), (0j, 1 + 2j, 2 - 1j, 3 + 0j), (1j, 1 + 1j, 2 - 1j, 3 + 0.5j), (2j, 1 + 1j, 5 - 1j, 3 + 0j)]
+    tab = {}
+    for i_, bp_ in enumerate(base):
+        tab[i_] = bp_
+        tab[i_ + 100] = bp_[::-1]
+    index_of = {}
+    for k_, v_ in tab.items():
+        index_of.setdefault(v_, k_)       # the all-zero tuple is its own reversal: index 0 (and 100, same falsy length)
+    try:
+        P._quad_available = False
+
+        def fake_segment_length3(curve, start, end, start_point, end_point, error, min_depth, depth):
+            b_ = index_of[curve.bpoints()]
+            return 0 if b_ % 100 == 0 else (b_, error, min_depth)
+        P.segment_length = fake_segment_length3
+        for it in range(ctx.n(250, 2500)):
+            objs, ops, outs = [], [], []
+            for _ in range(r.randint(2, 14)):
+                kinds = ['new'] if not objs else ['new', 'set', 'set', 'len', 'len', 'len', 'len', 'rev', 'rev', 'copy', 'deep']
+                k = r.choice(kinds)
+                o = r.randrange(len(objs)) if objs else 0
+                if k == 'new':
+                    b = r.choice([0, 1, 1, 2, 3, 4, 101])
+                    objs.append(P.CubicBezier(*tab[b])); ops.append('new %d' % b); outs.append('-')
+                elif k == 'set':
+                    b = r.choice([0, 1, 2, 3, 4, 101, 102, 103])
+                    objs[o].start, objs[o].control1, objs[o].control2, objs[o].end = tab[b]
+                    ops.append('set %d %d' % (o, b)); outs.append('-')
+                elif k == 'len':
+                    e = Fr(1, 10 ** r.choice([3, 6, 12, 12, 14])); d = r.choice([0, 5, 5, 7])
+                    v = objs[o].length(error=e, min_depth=d)
+                    ops.append('len %d %s %d' % (o, _fr(e), d))
+                    outs.append('0' if v == 0 else '%d:%s:%d' % (v[0] if index_of[tab[v[0]]] == v[0] else index_of[tab[v[0]]], _fr(v[1]), v[2]))
+                elif k == 'rev':
+                    objs.append(objs[o].reversed()); ops.append('rev %d' % o); outs.append('-')
+                elif k == 'copy':
+                    objs.append(_copy.copy(objs[o])); ops.append('copy %d' % o); outs.append('-')
+                else:
+                    objs.append(_copy.deepcopy(objs[o])); ops.append('deep %d' % o); outs.append('-')
+                c4.count(k)
+            lines.append('segheap 1 ' + ' ; '.join(ops))
+            impl.append(' ; '.join(outs))
+    finally:
+        P._quad_available, P.segment_length = saved
+    model = common.driver(lines)
+    c4.compare(lines, [m.strip() for m in model], impl)
+    return [c, c2, c3, c4]
 
 
 # ---------------------------------------------------------------------------
@@ -400,6 +488,8 @@ def sample(ctx, budget=1.0, hint=None, broken=None):
                 first = r.choice([None, (1e-3, 1), (1e-3, 5), (1e-2, 5), (1e-1, 0), (1e-12, 5), (1e-14, 8)])
                 if first:
                     s.length(error=first[0], min_depth=first[1]); hist.append('length(error=%g,min_depth=%d)' % first)
+                    if kind == 'quad':
+                        s.length(1, 0); hist.append('length(1,0)')
                 if r.random() < 0.5:
                     rv = s.reversed(); rv.length(); hist.append('reversed().length()')
                 if r.random() < 0.6:
@@ -408,7 +498,19 @@ def sample(ctx, budget=1.0, hint=None, broken=None):
                     setattr(s, attr, z); hist.append('%s=%r' % (attr, z))
                 if kind == 'line' and s.start == s.end:
                     continue
+                if r.random() < 0.5:
+                    # the object asked is a copy taken AFTER the measurement and the reassignment (reversed() hands its cache record on)
+                    how_ = r.choice(['reversed()', 'reversed()', 'reversed().reversed()', 'copy.copy'])
+                    s = {'reversed()': lambda x: x.reversed(), 'reversed().reversed()': lambda x: x.reversed().reversed(),
+                         'copy.copy': lambda x: __import__('copy').copy(x)}[how_](s)
+                    hist.append(how_)
                 freshs = type(s)(*s.bpoints())
+                if kind == 'quad' and first:
+                    # QuadraticBezier keeps a record only for the (odd) request length(1, 0)
+                    qa, qb = s.length(1, 0), freshs.length(1, 0)
+                    if abs(qa - qb) > 1e-9 * (1 + abs(qb)):
+                        fail('quad.length(1,0) after reassignment', 'length(1, 0) differs from a fresh segment with the same control points',
+                             {'segment': repr(freshs), 'history': hist, 'scipy_quad': bool(P._quad_available)}, repr(qa), repr(qb))
                 for args in [(), (1e-12, 5)]:
                     a = s.length(*((0, 1) + args)) if args else s.length()
                     b = freshs.length(*((0, 1) + args)) if args else freshs.length()
